@@ -83,7 +83,7 @@ def indent_of(layers):
 
 
 # --- separators between paragraph tokens ---------------------------------------------------------
-SEPS = {"sp": " ", "sp2": "  ", "nl": "\n", "nli": "\n   ", "hb": "\\\n", "hb2": "  \n"}
+SEPS = {"sp": " ", "sp2": "  ", "nl": "\n", "nli": "\n   ", "hb": "\\\n", "hb2": "  \n", "adj": ""}
 
 
 def join_tokens(tokens, seps):
